@@ -66,6 +66,7 @@ func main() {
 }
 
 func gen(prop, tier string, r *Rng, out *bufio.Writer, st *Stats) {
+	genTier, genSeed = tier, st.Seed
 	w := NewWorld(out, st)
 	g := &Kern{out, st}
 	switch prop {
@@ -74,6 +75,7 @@ func gen(prop, tier string, r *Rng, out *bufio.Writer, st *Stats) {
 		genC01Long(w, r, tier)
 		genC01Zeros(w, r, tier)
 		genChLen(g, r, tier, 1)
+		genHugeRW(g, r, tier)
 	case "C02":
 		genC02(w, r, tier)
 		genC02Long(w, r, tier)
@@ -82,13 +84,16 @@ func gen(prop, tier string, r *Rng, out *bufio.Writer, st *Stats) {
 		genC03Long(w, r, tier)
 		genC03Thresholds(w, r, tier)
 		genBigRef(g, r, tier)
+		genHugeAppend(g, r, tier)
 	case "C04":
 		genC04(w, r, tier)
 		genC04Long(w, r, tier)
+		genHugeLength(g, r, tier)
 	case "C05":
 		genC05(w, r, tier)
 		genC05Long(w, r, tier)
 		genF2F(g, r, tier)
+		genHugeConv(g, r, tier)
 	case "C06":
 		genQuant(g, r, tier, false)
 		if tier == "thorough" && os.Getenv("VERIF_NO_SWEEP32") == "" {
@@ -112,10 +117,12 @@ func gen(prop, tier string, r *Rng, out *bufio.Writer, st *Stats) {
 	case "C10":
 		genC10(w, r, tier)
 		genC10Routes(w, r, tier)
+		genHugePool(g, r, tier)
 	case "C12":
 		genC12(w, r, tier)
 		genC12Overlap(w, r, tier)
 		genBigRef(g, r, tier)
+		genHugeAppend(g, r, tier)
 	case "C13":
 		genC13(w, r, tier)
 		genManyAllocs(g, r, tier)
@@ -124,6 +131,7 @@ func gen(prop, tier string, r *Rng, out *bufio.Writer, st *Stats) {
 		genC14Long(w, r, tier)
 		genC14Zeros(w, r, tier)
 		genC14Moved(w, r, tier)
+		genC14Wide(g, r, tier)
 	case "C15":
 		genC15(w, r, tier)
 	case "C16":
@@ -142,5 +150,9 @@ func gen(prop, tier string, r *Rng, out *bufio.Writer, st *Stats) {
 	switch prop {
 	case "C01", "C02", "C03", "C04", "C05", "C10", "C12", "C13", "C14", "C15", "C20":
 		genMix(w, r, tier, prop)
+	}
+	switch prop {
+	case "C15", "C20", "C03", "C05", "C12":
+		genZeroValue(w, r, tier, prop)
 	}
 }
